@@ -2,7 +2,8 @@
    linearizable); each closed by `exact` of a lemma proved elsewhere, with Print
    Assumptions beneath. *)
 From Coq Require Import Sorted.
-From KV Require Import Bytes Spec WalCodec Engine EngineProofs Hist HistProofs EngineConc EngineConcProofs.
+From KV.gen Require Import ConcFacts.
+From KV Require Import Bytes Spec WalCodec Engine EngineProofs Hist HistProofs EngineConc EngineConcProofs ConcFactsOk.
 Open Scope N_scope.
 
 (* every interleaving of client sections and flusher steps leaves a linearizable history *)
@@ -63,3 +64,9 @@ Print Assumptions C06_error_no_effect_refuted_before_fix.
 Theorem C06_lin_check_sound : forall fuel h, lin_check fuel h = true -> linearizable_per_key h.
 Proof. exact HistProofs.lin_check_sound. Qed.
 Print Assumptions C06_lin_check_sound.
+
+(* the code still has the shape the atomic steps of the LTS assume (facts regenerated from
+   the Go source on every run by gofacts/conc.go) *)
+Theorem C06_code_facts : forallb (fun b => b) conc_facts = true /\ N.of_nat max_retries = cf_max_retries.
+Proof. exact (conj ConcFactsOk.conc_facts_all (proj2 ConcFactsOk.code_retry)). Qed.
+Print Assumptions C06_code_facts.
